@@ -9,6 +9,7 @@ package main
 
 import (
 	"fmt"
+	"go/types"
 	"sort"
 	"strings"
 
@@ -17,6 +18,10 @@ import (
 
 // structure checks the call tree below root for recursion and loops.
 func (ld *Loaded) structure(root *ssa.Function) (funcs int, problems []string) {
+	var boundedLoops, dynamic []string
+	defer func() {
+		ld.structNotes = map[string][]string{"loops_with_established_bound": boundedLoops, "dynamic_calls": dynamic}
+	}()
 	state := map[*ssa.Function]int{}
 	var stack []string
 	var walk func(f *ssa.Function)
@@ -33,7 +38,14 @@ func (ld *Loaded) structure(root *ssa.Function) (funcs int, problems []string) {
 		funcs++
 		if f.Blocks != nil {
 			if hs := analyze(f).headers; len(hs) > 0 {
-				problems = append(problems, fmt.Sprintf("loop in %s (block %d): termination of a data-dependent loop is not established", fnKey(f), hs[0].Index))
+				// a loop is fine if the unrolling of the function is complete for all
+				// arguments (every test folds, or the unwinding assertion is
+				// discharged): then it runs a bounded number of rounds
+				if why := ld.loopBounded(f); why != "" {
+					problems = append(problems, fmt.Sprintf("loop in %s (block %d): a bound on its iterations is not established (%s)", fnKey(f), hs[0].Index, why))
+				} else {
+					boundedLoops = append(boundedLoops, fnKey(f))
+				}
 			}
 		}
 		for _, blk := range f.Blocks {
@@ -77,7 +89,17 @@ func (ld *Loaded) structure(root *ssa.Function) (funcs int, problems []string) {
 					if _, ok := cc.Value.(*ssa.Builtin); ok {
 						continue
 					}
-					problems = append(problems, "dynamic call in "+fnKey(f)+": "+cc.String())
+					// a call through a function value: any function of the module
+					// with this signature whose address is taken somewhere
+					sig, _ := cc.Value.Type().Underlying().(*types.Signature)
+					n := 0
+					for _, t := range ld.addressTaken() {
+						if sig != nil && types.Identical(t.Signature, sig) {
+							n++
+							walk(t)
+						}
+					}
+					dynamic = append(dynamic, fmt.Sprintf("%s: %s (%d possible callees walked)", fnKey(f), cc.String(), n))
 					continue
 				}
 				if c.Pkg == nil || !strings.HasPrefix(c.Pkg.Pkg.Path(), modPath) {
@@ -108,7 +130,12 @@ func (r *Run) checkStructure(ld *Loaded, key string) {
 	o := &OblResult{Name: name, Layer: "P", Backend: "call-graph/CFG analysis"}
 	if len(probs) == 0 {
 		o.Status = "discharged"
-		r.Notes["structure:"+key] = fmt.Sprintf("%d functions below %s: acyclic static call graph, no loop, no go statement, no dynamic call", n, key)
+		r.Notes["structure:"+key] = fmt.Sprintf("%d functions below %s: acyclic call graph (calls through function values resolved to every address-taken function of the signature), every loop with an established bound, no go statement", n, key)
+		for k, v := range ld.structNotes {
+			if len(v) > 0 {
+				r.Notes["structure:"+key+":"+k] = v
+			}
+		}
 		r.add(o)
 		return
 	}
@@ -261,4 +288,102 @@ func (r *Run) checkBundledTotality(ld *Loaded) {
 		}
 	}
 	r.reportFailures(ld, bad, nil)
+}
+
+// addressTaken: the functions of the module that are used as values
+// (operands that are not the callee of a static call, closures).
+func (ld *Loaded) addressTaken() []*ssa.Function {
+	ld.fiMu.Lock()
+	defer ld.fiMu.Unlock()
+	if ld.addrTaken != nil {
+		return ld.addrTaken
+	}
+	seen := map[*ssa.Function]bool{}
+	note := func(v ssa.Value) {
+		if f, ok := v.(*ssa.Function); ok && f.Pkg != nil && strings.HasPrefix(f.Pkg.Pkg.Path(), modPath) {
+			seen[f] = true
+		}
+	}
+	for _, pkg := range ld.prog.AllPackages() {
+		if !strings.HasPrefix(pkg.Pkg.Path(), modPath) {
+			continue
+		}
+		var fns []*ssa.Function
+		for _, m := range pkg.Members {
+			if f, ok := m.(*ssa.Function); ok {
+				fns = append(fns, f)
+			}
+			if t, ok := m.(*ssa.Type); ok {
+				for _, tt := range []types.Type{t.Type(), types.NewPointer(t.Type())} {
+					ms := ld.prog.MethodSets.MethodSet(tt)
+					for i := 0; i < ms.Len(); i++ {
+						if f := ld.prog.MethodValue(ms.At(i)); f != nil {
+							fns = append(fns, f)
+						}
+					}
+				}
+			}
+		}
+		for k := 0; k < len(fns); k++ {
+			f := fns[k]
+			fns = append(fns, f.AnonFuncs...)
+			for _, blk := range f.Blocks {
+				for _, ins := range blk.Instrs {
+					switch i := ins.(type) {
+					case *ssa.Call:
+						for _, a := range i.Call.Args {
+							note(a)
+						}
+						if i.Call.StaticCallee() == nil {
+							note(i.Call.Value)
+						}
+						continue
+					case *ssa.MakeClosure:
+						if fn, ok := i.Fn.(*ssa.Function); ok {
+							seen[fn] = true
+						}
+					}
+					for _, op := range ins.Operands(nil) {
+						if op != nil && *op != nil {
+							note(*op)
+						}
+					}
+				}
+			}
+		}
+	}
+	out := []*ssa.Function{}
+	for f := range seen {
+		out = append(out, f)
+	}
+	sort.Slice(out, func(i, j int) bool { return out[i].String() < out[j].String() })
+	ld.addrTaken = out
+	return out
+}
+
+// loopBounded runs the function once with arbitrary arguments; "" if every
+// loop in it was unrolled completely (exactly, or with the unwinding assertion
+// discharged by the solver), else the reason.
+func (ld *Loaded) loopBounded(f *ssa.Function) (why string) {
+	defer func() {
+		if r := recover(); r != nil {
+			if u, ok := r.(Unsupported); ok {
+				why = u.Msg
+				return
+			}
+			panic(r)
+		}
+	}()
+	x := NewExec(ld)
+	x.useContracts = false
+	x.ignoreLoops = true
+	st := &State{h: Heap{}}
+	x.setupGhost(f.Pkg, st)
+	x.initPackage(f.Pkg, st)
+	args := x.symbolicArgs(f, st)[0].args
+	x.run(f, args, &State{h: st.h.clone()}, x.b.True())
+	if len(x.bounded) > 0 {
+		return strings.Join(x.bounded, "; ")
+	}
+	return ""
 }
